@@ -14,7 +14,7 @@ import numpy as np
 
 from . import atomtable, lib, measurer
 
-BASES = ["1E7K_1_C.cif", "1A1T_1_B.cif", "6RS3.cif", "2HY9.cif", "1JJP.cif", "6FC9.cif", "4WTI_1_T-P.cif",
+BASES = ["1E7K_1_C.cif", "1A1T_1_B.cif", "6RS3.cif", "2HY9.cif", "1JJP.cif", "6FC9.cif", "4WTI_1_T-P.cif", "4qln.pdb",
          "1DFU_1_M-N.cif", "488d.pdb", "1ehz-assembly-1.cif", "6INQ.cif", "1HMH_1_E.cif"]
 
 TRANSLATIONS = {1: (500, 0, 0), 2: (0, -500, 250), 3: (123, 77, -311), 4: (-500, -500, -500), 5: (1, 0, 0),
